@@ -266,8 +266,8 @@ def random_layout(rng, delim, comment, nlines, want_err=False, python=False, met
         fin = (not last) or rng.random() < 0.6
         if i == err_pos:
             opts = ["nobracket", "textafter", "emptyname", "emptyname_sp"]
-            if L.has_nonwsp and not L.has_wsp:
-                opts.append("nodelim")
+            if L.has_nonwsp and not L.has_wsp and not (L.last_entry_line == L.line and L.line > 0):
+                opts.append("nodelim")      # directly after an entry such a line is a continuation, not an error
             L.malformed(rng.choice(opts), final_nl=fin)
             break
         k = rng.choice(kinds)
